@@ -14,6 +14,7 @@
 #include <gmpxx.h>
 #include "gmp++/gmp++.h"
 #include <recint/recint.h>
+#include "c06_watchdog.h"
 #include "gmp++/gmp++_int.C"
 #include "gmp++/gmp++_int_lib.C"
 #include "giverror.C"
@@ -53,9 +54,8 @@ static Givaro::Integer mkI(const mpz_t z) { Givaro::Integer I; mpz_set(I.get_mpz
 
 #define CHK(cond, name) do { if (!(cond)) bad += std::string(" INCONSISTENT:") + name; } while (0)
 
-// ruint<K>(const char*): declared for ruint<6> but never defined there (link error): K >= 7 only
+// ruint<K>(const char*) for every K (the one-limb specialisation is defined since /repo ebe0fe7)
 template <size_t K> struct FromStr { static bool ok(const char* s, const ruint<K>& want) { ruint<K> t(s); return same(t, want); } };
-template <> struct FromStr<6> { static bool ok(const char*, const ruint<6>&) { return true; } };
 
 template <size_t K> struct Conv {
     typedef RecInt::rint<K> SI;
@@ -137,6 +137,13 @@ template <size_t K> struct Conv {
         std::ostringstream o; o << dec(m) << " " << leak << " " << leak2 << bad;
         return o.str();
     }
+    // decimal output as text: operator<< of ruint<K> and of rint<K> (the digits are compared with the model's digit loop)
+    static std::string dec_out(Args& a) {
+        using namespace RecInt;
+        ruint<K> x; from_mpz(x, *a[1]); SI s(x);
+        std::ostringstream os, ot; os << x; ot << s;
+        return os.str() + " " + ot.str();
+    }
     // object-level copies on a used destination: copy constructor, operator=, copy(), widening constructor, reset, placement
     // construction on used memory (a default-constructed ruint is 0: the constructors from native words rely on it)
     static std::string copies(Args& a) {
@@ -179,12 +186,14 @@ template <size_t K> static std::string run(const std::string& v, Args& a) {
     if (v == "conv.from_ruint") return Conv<K>::from_ruint(a);
     if (v == "conv.from_rint") return Conv<K>::from_rint(a);
     if (v == "conv.copies") return Conv<K>::copies(a);
+    if (v == "conv.dec") return Conv<K>::dec_out(a);
     if (v == "conv.widen") return Widen<K>::go(a);
     return "UNKNOWN-VARIANT";
 }
 
 int main() {
     mp_set_memory_functions(cnt_alloc, cnt_realloc, cnt_free);
+    c06_watchdog_install(); const double budget = c06_cpu_budget();
     std::string line;
     std::cout << "#thr " << __RECINT_THRESHOLD_KARA << "\n";
     while (std::getline(std::cin, line)) {
@@ -201,6 +210,7 @@ int main() {
             a.push_back(z);
         }
         std::string r;
+        c06_arm(budget);
         switch (K) {
             case 6: r = run<6>(v, a); break;
             case 7: r = run<7>(v, a); break;
@@ -210,6 +220,7 @@ int main() {
             case 11: r = run<11>(v, a); break;
             default: r = "BAD-K";
         }
+        c06_disarm();
         std::cout << r << std::endl;
         for (auto z : a) { mpz_clear(*z); delete[] z; }
     }
